@@ -1,4 +1,5 @@
 import VlsModel.Prim.U64
+import VlsModel.Model.Velocity
 /-
 Model of the node-wide payment ledger of `vls-core` (property C06).
 
@@ -22,7 +23,8 @@ NodeState::apply_payments                                         `applyPayments
 Channel::sign_counterparty_commitment_tx_phase2 (validate+apply)  `Node.cpSign`
 Channel::validate_holder_commitment_tx_phase2 (validate only)     `Node.hValidate`
 Channel::revoke_previous_holder_commitment (validate+apply)       `Node.revoke`
-Node::add_keysend / add_invoice                                   `Node.approve`
+Node::add_keysend / add_invoice (velocity check, THEN registration) `Node.approve` (uses `Velocity.VC.insert`)
+NodeState.velocity_control (memory and persisted copy)            `Node.vc : Velocity.NodeVC`, `Node.spec`
 NodeState::htlc_fulfilled                                         `Node.fulfill`
 Node::get_heartbeat: prune_invoices, prune_forwarded_payments     `Node.heartbeat`
 persisted NodeStateEntry {invoices, preimages}                    `Disk`
@@ -134,7 +136,7 @@ deriving DecidableEq, Repr
 structure Invoice where
   amount : Nat      -- amount_msat
   deadline : Nat    -- duration_since_epoch + expiry_duration + prune_time (seconds)
-  id : Nat          -- invoice_hash (keysend: the payment hash itself)
+  id : List Nat     -- stands for invoice_hash (keysend: `[0, hash]`; BOLT-11: `[1, amount, timestamp, tag]`)
 deriving DecidableEq, Repr
 
 structure ChanSt where
@@ -164,10 +166,14 @@ structure Node where
   payments : Hash → Option Payment
   chans : Chan → ChanSt
   disk : Disk
+  /-- `policy.global_velocity_control` and the node-wide control (memory / persisted copy) -/
+  spec : Velocity.Spec
+  vc : Velocity.NodeVC
 
-def Node.init (nch : Nat) (pol : Policy) : Node :=
+def Node.init (nch : Nat) (pol : Policy) (spec : Velocity.Spec := ⟨0, .unlimited⟩) : Node :=
   { nch := nch, pol := pol, invoices := fun _ => none, known := [], payments := fun _ => none,
-    chans := fun _ => ChanSt.init, disk := ⟨fun _ => none, fun _ => false⟩ }
+    chans := fun _ => ChanSt.init, disk := ⟨fun _ => none, fun _ => false⟩,
+    spec := spec, vc := Velocity.NodeVC.ofSpec spec }
 
 inductive VRes | ok | err | panic
 deriving DecidableEq, Repr
@@ -288,20 +294,30 @@ def Node.revoke (n : Node) (c : Chan) : Node × VRes :=
                 chans := upd n.chans c { st with hcur := info, hnext := none } }, .ok)
     | r => (n, r)
 
+/-- `persister.update_node`: invoices, preimages and the velocity control as they are in memory -/
 def Node.persist (n : Node) : Node :=
-  { n with disk := ⟨n.invoices, fun h => match n.payments h with | some p => p.pre | none => false⟩ }
+  { n with disk := ⟨n.invoices, fun h => match n.payments h with | some p => p.pre | none => false⟩,
+           vc := { n.vc with disk := n.vc.mem } }
 
-inductive ARes | added | same | different
+inductive ARes | added | same | different | declined | panic
 deriving DecidableEq, Repr
 
-/-- `add_keysend` / `add_invoice` (velocity control unlimited): a second approval for the same hash is
-    `Ok(true)` without effect when the invoice hash is the same, an error otherwise. -/
-def Node.approve (n : Node) (h : Hash) (inv : Invoice) : Node × ARes :=
+/-- `add_keysend` / `add_invoice` at clock time `now`.  Order of the source: an existing invoice for the
+    hash answers first (`Ok(true)` without effect when the invoice hash is the same, `Err` otherwise, no
+    velocity accounting); then `velocity_control.insert(now, amount)` (`Velocity.VC.insert`, panics when
+    the clock went backwards): refused ⇒ `Ok(false)`, NOTHING is registered (only the shifted buckets stay,
+    in memory); approved ⇒ the invoice and a payment entry are registered and the node state is persisted. -/
+def Node.approve (n : Node) (h : Hash) (inv : Invoice) (now : Nat) : Node × ARes :=
   match n.invoices h with
   | some old => (n, if old.id = inv.id then .same else .different)
   | none =>
-    (Node.persist { n with invoices := upd n.invoices h (some inv), known := h :: n.known,
-                            payments := upd n.payments h (some ((n.payments h).getD Payment.new)) }, .added)
+    match n.vc.mem.insert now inv.amount with
+    | none => (n, .panic)
+    | some (v, false) => ({ n with vc := { n.vc with mem := v } }, .declined)
+    | some (v, true) =>
+      (Node.persist { n with invoices := upd n.invoices h (some inv), known := h :: n.known,
+                              payments := upd n.payments h (some ((n.payments h).getD Payment.new)),
+                              vc := { n.vc with mem := v } }, .added)
 
 /-- `htlc_fulfilled` (no issued invoices, `enforce_balance = false`): record the preimage. -/
 def Node.fulfill (n : Node) (h : Hash) : Node × Bool :=
@@ -356,14 +372,16 @@ def Node.restart (n : Node) : Node :=
   let base : Hash → Option Payment := fun h =>
     if (n.disk.invoices h).isSome then some Payment.new
     else if n.disk.pre h then some { Payment.new with pre := true } else none
-  { n with invoices := n.disk.invoices, payments := restoreAll n.chans n.nch base }
+  -- `Node::new_full`: the restored velocity control, `update_spec(policy)` applied
+  { n with invoices := n.disk.invoices, payments := restoreAll n.chans n.nch base,
+           vc := { n.vc with mem := n.vc.disk.restart n.spec } }
 
 inductive Op
   | cpSign (c : Chan) (retry : Bool) (info : Info)
   | hValidate (c : Chan) (retry : Bool) (info : Info)
   | revoke (c : Chan)
   | cpRevoke (c : Chan)
-  | approve (h : Hash) (inv : Invoice)
+  | approve (h : Hash) (inv : Invoice) (now : Nat)
   | fulfill (h : Hash)
   | heartbeat (now : Nat)
   | restart
@@ -372,7 +390,7 @@ deriving Repr
 def Op.mentioned : Op → List Hash
   | .cpSign _ _ i => hashes i.inc ++ hashes i.out
   | .hValidate _ _ i => hashes i.inc ++ hashes i.out
-  | .approve h _ => [h]
+  | .approve h _ _ => [h]
   | .fulfill h => [h]
   | _ => []
 
@@ -385,8 +403,9 @@ def Node.exec (n : Node) : Op → Option (Node × Bool)
       | (n', .ok) => some (n', true) | (_, .err) => some (n, false) | (_, .panic) => none
   | .cpRevoke c => match n.cpRevoke c with
       | (n', .ok) => some (n', true) | (_, _) => some (n, false)
-  | .approve h inv => match n.approve h inv with
+  | .approve h inv now => match n.approve h inv now with
       | (n', .added) => some (n', true) | (_, .same) => some (n, true) | (_, .different) => some (n, false)
+      | (n', .declined) => some (n', false) | (_, .panic) => none
   | .fulfill h => some ((n.fulfill h).1, true)
   | .heartbeat now => (n.heartbeat now).map (fun n' => (n', true))
   | .restart => some (n.restart, true)
